@@ -10,7 +10,8 @@ FUNCS = ['RangeProof::verify_batch', 'RangeProof::verify', 'RangeProof::verify_s
 
 def honest_member(i, kind):
     m, cap, seeded = kind
-    return {'m': m, 'cap': cap, 'seeded': seeded, 'promises': [('sym' if (i + j) % 3 == 0 else None) for j in range(m)], 'values': 'sym'}
+    # every member is proved and verified in ITS OWN caller context (transcript state): a batch verifier that reuses one member's context for another is wrong
+    return {'m': m, 'cap': cap, 'seeded': seeded, 'promises': [('sym' if (i + j) % 3 == 0 else None) for j in range(m)], 'values': 'sym', 'label': 'member %d' % i}
 
 
 def cases(tier):
@@ -47,7 +48,8 @@ def cases(tier):
         out.append({'cfg': cfg, 'kind': 'examined', 'name': 'every member examined, k=%d' % k})
     # honest big batch: exactly k results
     for k in ([257] if tier == 'quick' else [256, 257, 513]):
-        cfg = {'scenario': 'batch', 'n': 2, 'x': 1, 'members': [{'m': 1, 'cap': 1, 'seeded': (i % 64 == 0)} for i in range(k)], 'actions': ['RecoverAndVerify']}
+        cfg = {'scenario': 'batch', 'n': 2, 'x': 1, 'members': [dict({'m': 1, 'cap': 1, 'seeded': (i % 64 == 0 or i == k - 1)}, **({'label': 'member %d' % i} if i % 50 == 1 or i >= 255 else {})) for i in range(k)],
+               'actions': ['RecoverAndVerify', 'RecoverOnly']}
         out.append({'cfg': cfg, 'kind': 'count', 'name': 'honest batch of %d returns %d results' % (k, k)})
     # (c') iff: the batch equation is sum_i w_i * (relation of member i) with distinct non-zero weights, so it vanishes identically iff every
     # member's relation does; equal-and-opposite defects in two members do not cancel (shared with C08)
